@@ -38,6 +38,7 @@ THEOREMS = [
     "c06_two_writers_line_count",
     "c06_instances_independent",
     "c06_history_irrelevant",
+    "c06_stall_irrelevant",
 ]
 # not stated by the property text: Props/C06Supp.lean (reported as INFO, never a verdict)
 SUPP_THEOREMS = ["c06_exit_translated", "c06_exit_only_cancel_scope_swallowed", "c06_exit_serialisation_error_propagates", "c06_exit_group", "c06_guard_ctor", "c06_guard_streams", "c06_guard_transport"]
@@ -180,6 +181,21 @@ def rand_item(rng, digits=True):
     return {"k": "typed", "cls": shape, "f": f}
 
 
+def no_badstr_under_formatting(cases):
+    """Under the host handler that lets formatting errors propagate, an exception whose own str() raises would be raised
+    INTO the library by the handler (`logger.error("... %s", exc)`): that is the handler's doing, not a framing defect,
+    so this combination is not generated (recorded as an observation in DESIGN 9.5)."""
+    def clean(items):
+        return [dict(it, how=it["how"].replace(":BadStr:", ":RuntimeError:")) if it.get("k") == "unser" else it for it in items]
+
+    for c in cases:
+        if c.get("debug") == "format":
+            c["items"] = clean(c["items"])
+            if c.get("with"):
+                c["with"] = [dict(w, items=clean(w["items"])) for w in c["with"]]
+    return cases
+
+
 def random_r(k):
     import random
 
@@ -235,6 +251,19 @@ class Writer(Suite):
             out.append({"items": [falsy_item(random_r(k), digits), base[0], falsy_item(random_r(k + 50), digits)], "close": True})
         for v in ([], [1], 0, True, None):
             out.append({"items": [base[0], {"k": "other", "v": v}, base[2]], "close": True})
+        # partial failure: the k-th write fails (transient pipe error) - the others must still arrive; the child closes
+        # its stdin while messages are queued - the client must still close its end when the stream is closed
+        six = base + base
+        for k in range(len(six)):
+            out.append({"items": six, "close": True, "fail_sends": [k]})
+        out.append({"items": six, "close": True, "fail_sends": [1, 2]})
+        out.append({"items": six, "close": True, "fail_sends": [0, 5]})
+        for k in (0, 1, 3, 6):
+            out.append({"items": six, "close": True, "breaks_at": k})
+        # str / dict subclasses (the writer dispatches with isinstance)
+        for how in ("str", "ordered", "defaultdict", "dict"):
+            it = {"k": "subclass", "how": how, "s": base[2]["s"], "v": base[0]["v"]}
+            out.append({"items": [base[0], it, dict(it, repeat=2), base[1]], "close": True})
         # error paths: closing the child's stdin fails (the pipe is gone); a send_json after the writer task has gone
         out.append({"items": base, "close": True, "aclose_raises": True})
         out.append({"items": [], "close": True, "aclose_raises": True})
@@ -265,7 +294,7 @@ class Writer(Suite):
         # a host with DEBUG logging configured
         for i, c in enumerate(out):
             if i % 3 == 1:
-                c["debug"] = True
+                c["debug"] = "format" if i % 2 else True  # half of them with a handler that formats every record
         # LAST (a defect here would be process-wide): the same process used before for other serialisations, with every
         # keyword fast_json.dumps / dump accept, by the server side, by a failing call
         for name in PRELUDES:
@@ -277,7 +306,7 @@ class Writer(Suite):
             # IS serialisable there (as its repr): not an unserialisable message under that backend
             for c in out:
                 c["items"] = [dict(it, how="dict-object") if it.get("how") == "typed-object" else it for it in c["items"]]
-        return [dict(c, backend=self.mode) for c in out]
+        return [dict(c, backend=self.mode) for c in no_badstr_under_formatting(out)]
 
     # ------------------------------------------------------------------ implementation
     def impl_batch(self, cases):
@@ -299,9 +328,13 @@ class Writer(Suite):
         if "harness_error" in obs:
             return None
         want = O.expected_lines(case["items"])
+        failed = set(obs.get("failed_sends", []))
         # objects outside the three accepted shapes ("other"): whether the writer sends them is not the property's
-        # business - the model is told what the implementation did with each of them
-        used, _, _ = O.align(obs["lines"], want)
+        # business - the model is told what the implementation did with each of them; likewise which writes the
+        # scripted child refused
+        used, _, _ = O.align(obs["lines"], [w for k, w in enumerate(want) if k not in failed])
+        used = iter(used)
+        used = [False if k in failed else next(used) for k in range(len(want))]
         items, w = [], 0
         for it in case["items"]:
             e = O.expected_line(it)
@@ -309,7 +342,7 @@ class Writer(Suite):
                 if e is None:
                     items.append({"k": "unser"})
                     continue
-                sent = used[w] or not e.get("optional")
+                sent = (used[w] or not e.get("optional")) and w not in failed
                 w += 1
                 if not sent:
                     items.append({"k": "unser"})
@@ -350,6 +383,10 @@ class Writer(Suite):
     # ------------------------------------------------------------------ property oracle
     def oracle(self, case, o):
         want = O.expected_lines(case["items"])
+        # writes the child refused (a transient pipe error, or the child closed its stdin) cannot arrive: nothing is
+        # demanded of THOSE messages, everything else must still be one intact line each, in order
+        failed = set(o.get("failed_sends", []))
+        want = [w for k, w in enumerate(want) if k not in failed]
         exp = {"lines": want, "stdin_closed": bool(case.get("close", True))}
         if "harness_error" in o:
             return ("client-raised", f"the stdio client raised {o['harness_error']} while writing", exp)
@@ -418,6 +455,17 @@ BATCH_LINE = ('[{"jsonrpc":"2.0","method":"notifications/message","params":{"lev
 SMALL_A = {"k": "dict", "v": {"jsonrpc": "2.0", "id": 1, "method": "ping"}}
 SMALL_C = {"k": "raw", "s": '{"jsonrpc":"2.0","method":"notifications/initialized"}'}
 SMALL_T = {"k": "typed", "cls": "notification", "f": {"method": "notifications/cancelled", "params": {"requestId": "r\n1"}}}
+
+
+def echo_items(case):
+    """what an echoing consumer puts on the write stream: one response per request the reader delivered (the batch line
+    carries one request, id 9; it is delivered only at a version with batching / without a version)"""
+    if not case.get("echo"):
+        return []
+    v = case.get("set")
+    accepting = v is None or v == "" or (int(v[0:4]), int(v[5:7]), int(v[8:10])) < (2025, 6, 18)
+    n = sum(1 for e in case.get("stdout", []) if "c" in e) if accepting else 0
+    return [{"k": "dict", "v": {"jsonrpc": "2.0", "id": 9, "result": {"echo": "ping"}}}] * n
 
 
 class Duplex(Suite):
@@ -516,17 +564,36 @@ class Duplex(Suite):
                             for _ in range(rng.randrange(0, 5))})
             out.append(self.mk(rng.choice(["2025-06-18", "2025-06-18", "2025-07-01", "2025-03-26"]), items, drain, times,
                                tie=rng.choice(["events", "timers", "io"])))
+        # SIZE AND STALL: a child that does not read its stdin for longer than any timeout a client could have (0.5 s .. minutes
+        # of virtual time) while much more than a pipe buffer is outstanding: 200 KB / 400 KB / 1 MB messages with small
+        # ones before and after, rejections falling into the stall
+        for stall in ((8, 60) if quick else (0.7, 3, 6, 8, 31, 61, 600)):
+            for size in ((400_000,) if quick else (150_000, 400_000, 1_000_000)):
+                big = {"k": "big", "shape": rng.choice(shapes), "size": size}
+                out.append(self.mk("2025-06-18", [SMALL_A, big, SMALL_C, SMALL_T], rng.choice([0, 65536]), [], stall=stall))
+                out.append(self.mk("2025-06-18", [SMALL_A, big, dict(big, id=8), SMALL_C], 16384,
+                                   [int(1024 * stall * 0.3), int(1024 * stall * 0.9), int(1024 * stall) + 5], stall=stall,
+                                   tie=rng.choice(["events", "timers", "io"])))
+        out.append(self.mk("unset", [SMALL_A, {"k": "big", "shape": "typed", "size": 300_000}, SMALL_C], 0, [], stall=12, capacity=4096))
+        # re-entrancy through the streams: the consumer of the read stream answers every delivered request on the write
+        # stream of the same connection, while large messages are draining
+        for v in ("2025-03-26", "unset", "2025-06-18"):
+            out.append(self.mk(v, [SMALL_A, {"k": "big", "shape": "typed", "size": 150_000}, SMALL_C], 8192, [2, 7.5, 11, 40], echo=True))
+        # the 1000th message of a session
+        if not quick:
+            many = [{"k": "dict", "v": {"jsonrpc": "2.0", "id": i, "method": "m", "params": {"i": i}}} for i in range(1200)]
+            out.append(self.mk("2025-06-18", many, 0, [5, 50]))
         # every exception class an outbound object can raise, between two large messages, while rejections are written back
         for n, how in enumerate(UNSER_RAISES if budget != "quick" else UNSER_RAISES[::7] + ["deep-dict", "repr-raises"]):
             out.append(self.mk("2025-06-18", [SMALL_A, {"k": "big", "shape": "dict", "size": 70_000}, {"k": "unser", "how": how},
                                               {"k": "big", "shape": "typed", "size": 70_000}, SMALL_C], 8192, [3, 9.5, 15]))
         for i, c in enumerate(out):
             if i % 4 == 0:
-                c["debug"] = True  # a host with DEBUG logging configured
+                c["debug"] = "format" if i % 8 else True  # a host with DEBUG logging configured (formatting handler for half)
             if i % 9 == 4:
                 c["server"] = {"env": {"LOG_LEVEL": "ERROR"}, "args": ["--x"]}
         out.append(self.mk("2025-06-18", [SMALL_A, {"k": "big", "shape": "dict", "size": 140_000}, SMALL_C], 8192, [4, 12], prelude=PRELUDES, debug=True))
-        return out
+        return no_badstr_under_formatting(out)
 
     # ------------------------------------------------------------------ implementation
     def impl_batch(self, cases):
@@ -537,7 +604,7 @@ class Duplex(Suite):
         if "harness_error" in obs:
             return None
         items = []
-        for it in case["items"]:
+        for it in list(case["items"]) + echo_items(case):
             e = O.expected_line(it)
             for _ in range(int(it.get("repeat", 1))):
                 if e is None:
@@ -549,7 +616,7 @@ class Duplex(Suite):
         # the scheduler's choice is an input of the two-writer model: which of the child's lines came from the reader
         # task (complete rejection errors that are not the next outbound message), in the observed order
         want = [{"key": O.line_key(e, raw=("json" not in e)), "raw": "json" not in e, "optional": bool(e.get("optional"))}
-                for e in O.expected_lines(case["items"])]
+                for e in O.expected_lines(list(case["items"]) + echo_items(case))]
         roles = []
         used, _, _ = O.align(obs["lines"], want, skippable=lambda ln: ln["is_json"] and "json" in ln and O.is_rejection(ln["json"]),
                 line_matches=lambda ln, w: (ln["text_key"] if w["raw"] else ln["key"]) == w["key"] and (w["raw"] or ln["is_json"]),
@@ -590,7 +657,7 @@ class Duplex(Suite):
     # ------------------------------------------------------------------ property oracle
     def oracle(self, case, o):
         want = [{"key": O.line_key(e, raw=("json" not in e)), "raw": "json" not in e, "optional": bool(e.get("optional"))}
-                for e in O.expected_lines(case["items"])]
+                for e in O.expected_lines(list(case["items"]) + echo_items(case))]
         exp = {"outbound_lines_in_order": [w["key"] + (" (optional)" if w["optional"] else "") for w in want],
                "other_lines": "complete -32600 rejection errors only", "stdin_closed": bool(case.get("close", True))}
         if "harness_error" in o:
@@ -767,7 +834,7 @@ class Exit(Suite):
                     out.append({"entry": "init", "version": v, "server": {"init": init, "env": {"LOG_LEVEL": "CRITICAL"}}, "exc": {"kind": "error", "msg": t}})
         for i, c in enumerate(out):
             if i % 3 == 0:
-                c["debug"] = True
+                c["debug"] = "format" if i % 2 else True
         return out
 
     def impl_batch(self, cases):
